@@ -239,7 +239,8 @@ rc::Gen<Case> gen_case(const vf::Options&) {
             auto& prog = c.S("a" + std::to_string(i));
             for (long k = 0; k < n; k++) {
                 long kind = *rc::gen::weightedOneOf<long>({{6, rc::gen::just<long>(OP_SPAWN)}, {2, rc::gen::just<long>(OP_JOIN)}, {2, rc::gen::just<long>(OP_INTC)}, {2, rc::gen::just<long>(OP_MIGC)}, {1, rc::gen::just<long>(OP_YIELDTO)},
-                                                           {2, rc::gen::just<long>(OP_MIGSELF)}, {1, rc::gen::just<long>(OP_PAUSEWS)}, {2, rc::gen::just<long>(OP_YIELD)}, {2, rc::gen::just<long>(OP_SLEEP)}});
+                                                           {2, rc::gen::just<long>(OP_MIGSELF)}, {1, rc::gen::just<long>(OP_PAUSEWS)}, {2, rc::gen::just<long>(OP_YIELD)}, {2, rc::gen::just<long>(OP_SLEEP)},
+                                                           {na > 1 ? 1 : 0, rc::gen::just<long>(OP_INT)}});      // interrupt another actor (it may be blocked in thread_join)
                 if (kind == OP_SPAWN) {
                     long via = *rc::gen::weightedOneOf<long>({{4, rc::gen::just<long>(VIA_CREATE)}, {2, rc::gen::just<long>(VIA_CREATE11)}, {1, rc::gen::just<long>(VIA_GO)}, {2, rc::gen::map(vf::range(0, 3), [](long cap) { return VIA_POOL + (cap << 4); })}});
                     std::vector<long> row = {kind, via & 15, *vf::range(0, 1), *vf::range(0, 1)};
@@ -249,6 +250,7 @@ rc::Gen<Case> gen_case(const vf::Options&) {
                     prog.push_back(row);
                 } else if (kind == OP_JOIN || kind == OP_YIELDTO) prog.push_back({kind, *vf::range(0, 5)});
                 else if (kind == OP_INTC) prog.push_back({kind, *vf::range(0, 5), *vf::range(0, 2)});
+                else if (kind == OP_INT) prog.push_back({kind, *vf::range(0, na - 1), *vf::range(0, 2)});
                 else if (kind == OP_MIGC) prog.push_back({kind, *vf::range(0, 5), *vf::range(0, nv - 1)});
                 else if (kind == OP_MIGSELF) prog.push_back({kind, *vf::range(0, nv - 1)});
                 else if (kind == OP_PAUSEWS) prog.push_back({kind, *vf::range(0, 1)});
